@@ -256,3 +256,208 @@ func runAdjustedOutput(c *vf.Check, gn string, k int) {
 		c.Nontrivial(id)
 	}
 }
+
+// runLinkedForge: prover strategies F3 / F4 - as F1 a fresh transcript for output_0 = input_0 + input_1 (+ fresh
+// re-encryption), but the embedded simple shuffle is an honest one of exactly one half of the link between the two
+// proofs: F3 of R = A + lambda*B (so S = C + lambda*D differs from the simple shuffle's second vector in one slot),
+// F4 of S (so R differs). A verifier that checks only one half of the link accepts one of them.
+func runLinkedForge(c *vf.Check, gn string, k int) {
+	pk := "C15/pair/" + gn
+	w := newWorld(gn)
+	grp := w.s
+	for variant := 0; variant < 2; variant++ {
+		variant := variant
+		id := fmt.Sprintf("pair %s k=%d forged transcript for output0 = input0+input1, embedded simple shuffle bound to %s only", gn, k, []string{"R = A+lambda*B", "S = C+lambda*D"}[variant])
+		c.Case(id, pk, func(x *vf.Ctx) {
+			in := w.input(k, 0)
+			X, Y := w.points(in.a), w.points(in.b)
+			G, H := w.G, w.H
+			if G == nil {
+				G = grp.Point().Base()
+			}
+			rand := alpha.Stream("c15-linked-forge-" + id)
+			pick := func() kyber.Scalar { return grp.Scalar().Pick(rand) }
+			picks := func() []kyber.Scalar {
+				v := make([]kyber.Scalar, k)
+				for i := range v {
+					v[i] = pick()
+				}
+				return v
+			}
+			mul := func(a, b kyber.Scalar) kyber.Scalar { return grp.Scalar().Mul(a, b) }
+			m := func(i, j int) bool { return i == j || (i == 0 && j == 1) }
+			beta := picks()
+			xbar, ybar := make([]kyber.Point, k), make([]kyber.Point, k)
+			for i := 0; i < k; i++ {
+				xbar[i], ybar[i] = grp.Point().Mul(beta[i], G), grp.Point().Mul(beta[i], H)
+				for j := 0; j < k; j++ {
+					if m(i, j) {
+						xbar[i].Add(xbar[i], X[j])
+						ybar[i].Add(ybar[i], Y[j])
+					}
+				}
+			}
+			forger := func(ctx proof.ProverContext) error {
+				u, wv, a := picks(), picks(), picks()
+				tau0, gamma := pick(), pick()
+				mk := func() []kyber.Point { return make([]kyber.Point, k) }
+				p1 := fEga1{Gamma: grp.Point().Mul(gamma, G), A: mk(), C: mk(), U: mk(), W: mk(), Lambda1: grp.Point().Null(), Lambda2: grp.Point().Null()}
+				gsum := grp.Scalar().Set(tau0)
+				for i := 0; i < k; i++ {
+					p1.A[i] = grp.Point().Mul(a[i], G)
+					p1.C[i] = grp.Point().Mul(mul(gamma, a[i]), G)
+					p1.U[i] = grp.Point().Mul(u[i], G)
+					p1.W[i] = grp.Point().Mul(mul(gamma, wv[i]), G)
+					gsum.Add(gsum, mul(wv[i], beta[i]))
+				}
+				for j := 0; j < k; j++ {
+					coef := grp.Scalar().Neg(u[j])
+					for i := 0; i < k; i++ {
+						if m(i, j) {
+							coef.Add(coef, wv[i])
+						}
+					}
+					p1.Lambda1.Add(p1.Lambda1, grp.Point().Mul(coef, X[j]))
+					p1.Lambda2.Add(p1.Lambda2, grp.Point().Mul(coef, Y[j]))
+				}
+				p1.Lambda1.Add(p1.Lambda1, grp.Point().Mul(gsum, G))
+				p1.Lambda2.Add(p1.Lambda2, grp.Point().Mul(gsum, H))
+				if err := ctx.Put(p1); err != nil {
+					return err
+				}
+				v2 := fEga2{Zrho: make([]kyber.Scalar, k)}
+				if err := ctx.PubRand(&v2); err != nil {
+					return err
+				}
+				b, f := make([]kyber.Scalar, k), make([]kyber.Scalar, k)
+				for i := 0; i < k; i++ {
+					b[i] = grp.Scalar().Sub(v2.Zrho[i], u[i])
+					f[i] = grp.Scalar().Set(b[i])
+				}
+				f[1] = grp.Scalar().Sub(b[1], b[0]) // f = M^-T b
+				p3 := fEga3{D: mk()}
+				for i := 0; i < k; i++ {
+					p3.D[i] = grp.Point().Mul(mul(gamma, f[i]), G)
+				}
+				if err := ctx.Put(p3); err != nil {
+					return err
+				}
+				var v4 fEga4
+				if err := ctx.PubRand(&v4); err != nil {
+					return err
+				}
+				p5 := fEga5{Zsigma: make([]kyber.Scalar, k), Ztau: grp.Scalar().Neg(tau0)}
+				r, sv := make([]kyber.Scalar, k), make([]kyber.Scalar, k)
+				for i := 0; i < k; i++ {
+					p5.Zsigma[i] = grp.Scalar().Add(wv[i], f[i])
+					p5.Ztau.Add(p5.Ztau, mul(f[i], beta[i]))
+					link := b[i] // F3: the simple shuffle is one of R
+					if variant == 1 {
+						link = f[i] // F4: of S
+					}
+					r[i] = grp.Scalar().Add(a[i], mul(v4.Zlambda, link))
+					sv[i] = mul(gamma, r[i])
+				}
+				if err := ctx.Put(p5); err != nil {
+					return err
+				}
+				var ss shuffle.SimpleShuffle
+				ss.Init(grp, k)
+				return ss.Prove(G, gamma, r, sv, rand, ctx)
+			}
+			prf, err := proof.HashProve(grp, "c15", forger)
+			c.Eval(1)
+			if err != nil {
+				c.Class("pair/forge-not-buildable", func() any { return id + ": " + err.Error() })
+				return
+			}
+			var verr error
+			func() {
+				defer func() {
+					if r := recover(); r != nil {
+						verr = fmt.Errorf("panic: %v", r)
+					}
+				}()
+				verr = proof.HashVerify(grp, "c15", shuffle.Verifier(grp, w.G, w.H, X, Y, xbar, ybar), prf)
+			}()
+			if verr == nil {
+				x.Failf(pk+"/forged-proof-accepted", "%s: a freshly built proof for an output that is not a permutation of re-encryptions is ACCEPTED (%d bytes)", id, len(prf))
+			}
+			c.Class("pair/forge-rejected", func() any { return id })
+		})
+		c.Count("transitions", 1)
+		c.Nontrivial(id)
+	}
+}
+
+// runSpellings: the generator G and the public key H may each be given as nil, which stands for the standard base
+// point. Every effective pair (G,H) in {B, g*B} x {B, h*B}, every spelling of it on the prover's side and every
+// spelling on the verifier's side: the honest biffle / pair-shuffle proof verifies, and does not verify under another
+// effective pair.
+func runSpellings(c *vf.Check, gn string) {
+	pk := "C15/spelling/" + gn
+	w := newWorldG(gn)
+	B := w.s.Point().Base()
+	type sp struct {
+		name string
+		p    kyber.Point
+		eff  string
+	}
+	Gs := []sp{{"nil", nil, "B"}, {"Base", B, "B"}, {"g*B", w.G, "g*B"}}
+	Hs := []sp{{"nil", nil, "B"}, {"Base", B, "B"}, {"h*B", w.H, "h*B"}}
+	for _, scheme := range []string{"biffle", "pair"} {
+		for _, pg := range Gs {
+			for _, ph := range Hs {
+				scheme, pg, ph := scheme, pg, ph
+				id := fmt.Sprintf("%s %s proven with G=%s H=%s", scheme, gn, pg.name, ph.name)
+				c.Case(id, pk, func(x *vf.Ctx) {
+					in := w.input(3, 0)
+					X, Y := w.points(in.a), w.points(in.b)
+					var prf []byte
+					var verify func(G, H kyber.Point) error
+					var err error
+					if scheme == "biffle" {
+						X2, Y2 := [2]kyber.Point{X[0], X[1]}, [2]kyber.Point{Y[0], Y[1]}
+						Xb, Yb, prover := shuffle.Biffle(w.s, pg.p, ph.p, X2, Y2, alpha.Stream(id))
+						prf, err = proof.HashProve(w.s, "c15s", prover)
+						verify = func(G, H kyber.Point) error {
+							return proof.HashVerify(w.s, "c15s", shuffle.BiffleVerifier(w.s, G, H, X2, Y2, Xb, Yb), prf)
+						}
+					} else {
+						Xb, Yb, prover := shuffle.Shuffle(w.s, pg.p, ph.p, X, Y, alpha.Stream(id))
+						prf, err = proof.HashProve(w.s, "c15s", prover)
+						verify = func(G, H kyber.Point) (err error) {
+							defer func() {
+								if r := recover(); r != nil {
+									err = fmt.Errorf("panic: %v", r)
+								}
+							}()
+							return proof.HashVerify(w.s, "c15s", shuffle.Verifier(w.s, G, H, X, Y, Xb, Yb), prf)
+						}
+					}
+					if err != nil {
+						x.Failf(pk+"/prove-failed", "%s: %v", id, err)
+						return
+					}
+					for _, vg := range Gs {
+						for _, vh := range Hs {
+							same := vg.eff == pg.eff && vh.eff == ph.eff
+							verr := verify(vg.p, vh.p)
+							c.Eval(1)
+							if same && verr != nil {
+								x.Failf(pk+"/honest-rejected", "%s: rejected when verified with G=%s H=%s (the same parameters): %v", id, vg.name, vh.name, verr)
+								return
+							}
+							if !same && verr == nil {
+								x.Failf(pk+"/other-parameters-accepted", "%s: accepted when verified with G=%s H=%s (other parameters)", id, vg.name, vh.name)
+								return
+							}
+						}
+					}
+				})
+				c.Count("transitions", 9)
+				c.Nontrivial(id)
+			}
+		}
+	}
+}
